@@ -182,10 +182,20 @@ def run(ctx: core.Ctx) -> core.Result:
             if k not in seen:
                 seen.add(k)
                 viol.append(core.Violation(k, t, {"item": rp}))
+    # pipelined layer: the second of two back-to-back requests, through the real reactor under the simulator
+    from vk.checks import c19p
+
+    pviol, pcov = c19p.run_layer(ctx)
+    for pv in pviol:
+        if pv.key not in seen:
+            seen.add(pv.key)
+            viol.append(pv)
+    tot += pcov["pipelined_executions"]
     cov = {
+        **pcov,
         "evaluations": tot,
         "distinct_nontrivial": len({(i[1], i[3] if i[0] == "serve" else i[2]) for i in items}),
-        "rule": "3 accepted-context sets x 11 request types x all context IDs 0..255 through _serve_request, plus C-STORE sub-operation requests on all 256 IDs during C-GET and C-MOVE response iteration; distinct = (accepted set, context ID) pairs",
+        "rule": "3 accepted-context sets x 11 request types x all context IDs 0..255 through _serve_request, plus C-STORE sub-operation requests on all 256 IDs during C-GET and C-MOVE response iteration; distinct = (accepted set, context ID) pairs; pipelined layer: a raw peer sends C-ECHO-RQ on an accepted context immediately followed by a second request (6 types) on every context ID, to the real acceptor reactor under the simulator, with the first handler held until the second message is queued",
         "handler_invocations_on_accepted_contexts": inv,
         "exhaustive": True,
         "samples": [list(items[i]) for i in ctx.sample_indices(len(items), 5)],
@@ -195,5 +205,9 @@ def run(ctx: core.Ctx) -> core.Result:
 
 def replay(ctx, data):
     it = data["item"]
+    if it[0] == "pipelined":
+        from vk.checks import c19p
+
+        return c19p.replay_item(it[1], it[2])
     print(eval_serve(it[1], it[2], it[3]) if it[0] == "serve" else eval_substore(it[1], it[2], it[3]))
     return 0
